@@ -689,7 +689,7 @@ PROPS = {
         runs=[dict(comp="mal", quick=2000, thorough=16000)],
         classify=cls_c13,
         nontrivial=lambda line: '"op":"si"' in line,
-        rule="mal: raw si.AllocationRequest / si.ApplicationRequest / si.NodeRequest messages injected after ~30% of the operations of the mostly-valid full-stack histories (general, gang and preemption generators of the core component), "
+        rule="3 % of the injected requests are configuration updates that carry the configuration in force under the registered, an empty or an unknown policy group (guarded hook VerifConfigUpdateFor: the event the RM proxy hands on): no panic, no hang, nothing changes; mal: raw si.AllocationRequest / si.ApplicationRequest / si.NodeRequest messages injected after ~30% of the operations of the mostly-valid full-stack histories (general, gang and preemption generators of the core component), "
              "sent through rmproxy.RMProxy.UpdateAllocation/UpdateApplication/UpdateNode into the real ClusterContext handlers: allocations (new / pending / bound / placeholder / swapping placeholder / in-flight real / released / foreign / empty keys; "
              "live, unknown, empty, terminated and removed applications; known, unknown, removed and empty node ids; ResourcePerAlloc unset, empty, zero, negative, mixed sign, zero-and-positive, int64 extremes, odd type names; tags unset / empty / invalid creation time / "
              "foreign tag with every value / required node; placeholder with and without task group; PreemptionPolicy unset; int32 extreme priorities), releases (every TerminationType incl. out-of-range numbers on every kind of key, release-all, foreign, unknown), "
